@@ -127,6 +127,10 @@ class Ctx:
 
             destructure_namedtuples(self.prog)
         if os.environ.get("SYNLINT_NO_CANON") != "1":
+            from .canon import propagate_string_constants
+
+            propagate_string_constants(self.prog)
+        if os.environ.get("SYNLINT_NO_CANON") != "1":
             from .canon import canonicalise
 
             for q in sorted(self.prog.functions):
